@@ -153,31 +153,39 @@ def RInv (p : Shape) (s : RPos) : Prop := s.drained = true → isStream p s.k = 
 inductive PROp
   | read (i : Nat)       -- read_<step>(): returns the value, or a lazy iterable for a stream step
   | exhaust (i : Nat)    -- the iterable returned by read_<step>() has been consumed to its end
+  | abandon (i : Nat)    -- the iterable returned by read_<step>() has been dropped before its end (generator.close())
   | close
   deriving DecidableEq, Repr
 
-/-- position: step `k`; `inS` = the iterable of stream step `k` has been handed out and not yet exhausted -/
+/-- position: step `k`; `inS` = the iterable of stream step `k` has been handed out and not yet exhausted;
+    `dead` = that iterable was abandoned: nothing can be taken from it any more -/
 structure PRPos where
   k : Nat
   inS : Bool
+  dead : Bool
   deriving DecidableEq, Repr
 
 def specRpy (p : Shape) (s : PRPos) : PROp → Option PRPos
   | .read i =>
-    if i < p.length ∧ i = s.k ∧ s.inS = false then some (if isStream p i then ⟨s.k, true⟩ else ⟨s.k + 1, false⟩) else none
-  | .exhaust i => if i = s.k ∧ s.inS then some ⟨s.k + 1, false⟩ else none
+    if i < p.length ∧ i = s.k ∧ s.inS = false then some (if isStream p i then ⟨s.k, true, false⟩ else ⟨s.k + 1, false, false⟩) else none
+  | .exhaust i => if i = s.k ∧ s.inS ∧ s.dead = false then some ⟨s.k + 1, false, false⟩ else none
+  -- an abandoned stream is still the current step: the reader does not move on, and the stream cannot be read again
+  | .abandon i => if i = s.k ∧ s.inS ∧ s.dead = false then some ⟨s.k, true, true⟩ else none
   | .close => if s.k = p.length ∧ s.inS = false then some s else none
 
 /-- Generated Python `ReaderBase`: `_state = 2i` ready, `2i+1` iterable of stream `i` outstanding;
-    `_wrap_iterable` sets `2i+2` when the iterable is exhausted. -/
-def pyR (p : Shape) (st : Nat) : PROp → Option Nat
-  | .read i => if i < p.length ∧ st = 2 * i then some (if isStream p i then 2 * i + 1 else 2 * i + 2) else none
-  | .exhaust i => if st = 2 * i + 1 then some (2 * i + 2) else none
-  | .close => if st = 2 * p.length then some st else none
+    `_wrap_iterable` sets `2i+2` when the iterable is exhausted (the statement after its `yield from`), and only then:
+    closing the generator early raises GeneratorExit at the `yield from` and the assignment is not reached.
+    The second component is the generator object's own state (closed or not), not a variable of the reader. -/
+def pyR (p : Shape) (st : Nat × Bool) : PROp → Option (Nat × Bool)
+  | .read i => if i < p.length ∧ st.1 = 2 * i then some (if isStream p i then (2 * i + 1, false) else (2 * i + 2, false)) else none
+  | .exhaust i => if st.1 = 2 * i + 1 ∧ st.2 = false then some (2 * i + 2, false) else none
+  | .abandon i => if st.1 = 2 * i + 1 ∧ st.2 = false then some (st.1, true) else none
+  | .close => if st.1 = 2 * p.length then some st else none
 
-def encPR (s : PRPos) : Nat := 2 * s.k + (if s.inS then 1 else 0)
+def encPR (s : PRPos) : Nat × Bool := (2 * s.k + (if s.inS then 1 else 0), s.dead)
 
-def runPR (f : Nat → PROp → Option Nat) : Nat → List PROp → Option Nat
+def runPR (f : Nat × Bool → PROp → Option (Nat × Bool)) : Nat × Bool → List PROp → Option (Nat × Bool)
   | st, [] => some st
   | st, op :: ops => match f st op with
     | none => none
